@@ -28,6 +28,7 @@ if of_01.deferredSender is None:
   of_01.deferredSender = of_01.DeferredSender()
 
 REPO = os.path.realpath(poxenv.REPO)
+RAISE_XID = 66
 BUDGET = 200000
 
 
@@ -67,7 +68,7 @@ class Budget(object):
     self.n = 0
     self.tripped = False
     self.active = True
-    self.old = signal.signal(signal.SIGALRM, self._alarm)
+    signal.signal(signal.SIGALRM, self._alarm)
     sys.settrace(self._global)
     return self
 
@@ -75,7 +76,8 @@ class Budget(object):
     self.active = False
     signal.setitimer(signal.ITIMER_REAL, 0, 0)
     sys.settrace(None)
-    signal.signal(signal.SIGALRM, self.old)
+    # the handler stays installed (it does nothing while inactive): a SIGALRM that was already on its
+    # way must not meet the default action, which would kill this worker process
     return False
 
 
@@ -95,6 +97,8 @@ class FSock(object):
       if self.eof:
         return b""
       raise _socket.error(errno.EAGAIN, "again")
+    if flags & _socket.MSG_PEEK:
+      return self.inq[:n]
     d, self.inq = self.inq[:n], self.inq[n:]
     return d
 
@@ -175,7 +179,11 @@ class ControllerLoop(object):
       orig_init(con, sock)
       name = sock.name
       harness.cons[name] = con
-      con.handlers = [lambda c, m, nm=name: harness.delivered[nm].append((m.header_type, m.xid, m.pack()))] * 256
+      def rec(c, m, nm=name):
+        harness.delivered[nm].append((m.header_type, m.xid, m.pack()))
+        if m.xid == RAISE_XID:
+          raise RuntimeError("handler failure (scripted)")
+      con.handlers = [rec] * 256
     of_01.Connection.__init__ = con_init
     self.alive = True
     self.died = None
@@ -251,7 +259,9 @@ class ControllerLoop(object):
 # ---------------------------------------------------------------------------
 class SwitchLoop(object):
   """the real RecocoIOLoop.run generator with one RecocoIOWorker + OFConnection per connection"""
-  def __init__(self, names):
+  def __init__(self, names, connecting=False):
+    """connecting=True: the workers start in the connecting state (as datapaths.OpenFlowWorker does) and
+    create their OFConnection in the connect handler, so the first bytes go through IOWorker._try_connect"""
     self.names = list(names)
     self.loop = iow.RecocoIOLoop()
     self.socks = {}
@@ -263,9 +273,21 @@ class SwitchLoop(object):
     for n in names:
       s = FSock(n)
       w = self.loop.new_worker(s)
-      c = swmod.OFConnection(w)
-      c.set_message_handler(lambda con, m, nm=n: self.delivered[nm].append((m.header_type, m.xid, m.pack())))
-      self.socks[n], self.workers[n], self.ofcons[n] = s, w, c
+
+      def mk(worker, nm=n):
+        c = swmod.OFConnection(worker)
+        def rec(con, m, nm=nm):
+          self.delivered[nm].append((m.header_type, m.xid, m.pack()))
+          if m.xid == RAISE_XID:
+            raise RuntimeError("handler failure (scripted)")
+        c.set_message_handler(rec)
+        self.ofcons[nm] = c
+      if connecting:
+        w._connecting = True
+        w.connect_handler = mk
+      else:
+        mk(w)
+      self.socks[n], self.workers[n] = s, w
     self.gen = self.loop.run()
     self.sel = next(self.gen)
     self._send(([self.loop.pinger] if self._pinged() else [], [], []))      # registers the workers
@@ -358,6 +380,7 @@ def good(side, kind, xid):
         "pktin": lambda: rb.packet_in(rb.NO_BUFFER, len(pl), 1, 0, pl, xid),
         "portstatus": lambda: rb.port_status(2, rb.phy_port(3, "00:00:00:00:00:03", "p3"), xid),
         "error": lambda: rb.error(1, 1, b"xy", xid),
+        "vendor": lambda: rb.vendor(0x2320, b"abcd", xid),
         "features": lambda: rb.features_reply(7, [rb.phy_port(1, "00:00:00:00:00:01", "p1")], xid=xid),
         "stats": lambda: rb.stats_reply(rb.ST_FLOW, rb.flow_stats_entry(actions=rb.a_output(1)), xid=xid),
         "queuecfg": lambda: rb.msg(rb.QUEUE_GET_CONFIG_REPLY, rb.struct.pack("!Hxxxxxx", 1) +
@@ -376,7 +399,7 @@ def good(side, kind, xid):
   }[kind]()
 
 
-KINDS = {"ctl": ["hello", "echo", "barrier", "pktin", "portstatus", "error", "features", "stats", "queuecfg"],
+KINDS = {"ctl": ["vendor", "hello", "echo", "barrier", "pktin", "portstatus", "error", "features", "stats", "queuecfg"],
          "sw": ["hello", "echo", "barrier", "flowmod", "pktout", "setconfig", "statsreq", "portmod", "vendor"]}
 # where an embedded (action / entry / property) length field lives: offset of its 2-byte length
 INNER = {("sw", "flowmod"): 72 + 2, ("sw", "pktout"): 16 + 2, ("ctl", "stats"): 12, ("ctl", "queuecfg"): 16 + 4 + 8 + 2}
@@ -392,7 +415,7 @@ def corrupt(side, kind, xid, fault, param=0):
 
   def setlen(v):
     g[2:4] = rb.struct.pack("!H", v & 0xffff)
-  if fault == "OK":
+  if fault in ("OK", "HANDLER_RAISES"):
     return bytes(g), n, True
   if fault == "BAD_VERSION":
     g[0] = (0x04, 0x00, 0xff, 0x02)[param % 4]
@@ -413,7 +436,7 @@ def corrupt(side, kind, xid, fault, param=0):
     if v >= n:
       return None
     setlen(v)
-    return bytes(g), v, False
+    return bytes(g), v, ("short" if v < FIXED[kind] else False)
   if fault == "LEN_GT_ACTUAL":       # claims more than was sent
     v = n + (1, 8, 3)[param % 3]
     setlen(v)
@@ -431,5 +454,5 @@ def corrupt(side, kind, xid, fault, param=0):
   raise ValueError(fault)
 
 
-FAULTS = ["BAD_VERSION", "TYPE_UNKNOWN", "TYPE_WRONG_DIR", "LEN_LT_8", "LEN_LT_NEEDED", "LEN_GT_ACTUAL",
+FAULTS = ["HANDLER_RAISES", "BAD_VERSION", "TYPE_UNKNOWN", "TYPE_WRONG_DIR", "LEN_LT_8", "LEN_LT_NEEDED", "LEN_GT_ACTUAL",
           "INNER_LEN_BAD", "TRUNCATED"]
